@@ -10,6 +10,7 @@ KEEP_PREFIX = 1
 SIZES = {"quick": 9000, "thorough": 160000}
 BATCH = 3000
 SEARCH_TRIES = 60
+EXTRA_MODULES = ("Sentinel.Lemmas.BreakerRace",)
 RULE = ("cases = one real breaker (error count / error ratio / slow ratio; timeout, minRequestAmount, threshold, probeNum varied) + a sequential "
         "set-up phase (closed / just opened / open one ms before the deadline / open at the deadline / half-open with the probe outstanding) + one "
         "concurrent phase of 2-3 threads running TryPass (optionally blocked afterwards -> exit-hook rollback) and OnRequestComplete calls under an "
